@@ -248,6 +248,8 @@ public:
     static Wrapper pow(const Wrapper &a, unsigned int p)
     {
         Wrapper tmp = a, res(1);
+        if (p == 0)
+            return res;
 
         while (p != 1) {
             if (p % 2 == 0) {
